@@ -858,6 +858,20 @@ Example ex_fetch_bytes :
     (seq 0 61) = true.
 Proof. vm_compute. reflexivity. Qed.
 
+(* the theorems about the origin of the escape hatches, applied to the witnesses *)
+Example ex_nested_nesting : nesting (ex_cz false) false 0 2 ex_nested_set.
+Proof. apply C13_message_set_depth. vm_compute. reflexivity. Qed.
+Example ex_alloc_reaches :
+  exists v, reaches (ex_cz false) false 0 ex_alloc_set COMPRESSION_SNAPPY v /\ alloc_limit <= xerial_max_alloc v.
+Proof. apply (C13_message_set_alloc_only_if (ex_cz false) false 0 2). vm_compute. reflexivity. Qed.
+(* a snappy wrapper two levels down (inside an identity-"gzip" wrapper) is found as well *)
+Example ex_alloc_nested :
+  from_slice (ex_cz false) 3 false 0 (ex_entry 0 COMPRESSION_GZIP ex_alloc_set []) = alloc_panic
+  /\ from_slice (ex_cz false) 1 false 0 (ex_entry 0 COMPRESSION_GZIP ex_alloc_set []) = Err EOutOfFuel.
+Proof. vm_compute. split; reflexivity. Qed.
+Example ex_release_tri : tri (from_slice (ex_cz false) 8 true 3 ex_trailing_set).
+Proof. apply C13_message_set_release. reflexivity. Qed.
+
 Print Assumptions C13_decode_metadata.
 Print Assumptions C13_decode_offsets.
 Print Assumptions C13_decode_list_offsets.
